@@ -12,7 +12,7 @@ RULE = ("zones with whole-hour, half-hour, 45-minute and date-line offsets; date
         "strings of the regression list; non-trivial = distinct (zone, date, existing minute) triples")
 REQUIREMENT = ("encode(HH:MM) = LE32 of an instant t whose local time (oracle: zoneinfo) is today's date at HH:MM:00, and "
                "decode(encode(HH:MM)) = HH:MM; a string outside the grammar 1-2 digits ':' 1-2 digits with h < 24, m < 60 raises")
-VALID = re.compile(r"^[0-9]{1,2}:[0-9]{1,2}$")
+VALID = re.compile(r"[0-9]{1,2}:[0-9]{1,2}\Z", re.ASCII)
 
 
 def classify_string(s):
